@@ -48,7 +48,7 @@ CHECKS = {
          "Exploration: nestings of if/else-if/else and range (all three variable forms, := and =, else branches) over every rangeable kind, with conditions of every kind (42 opaque conditions of known truthiness incl. fractional floats, narrow ints, interfaces holding false/0/\"\"), compared byte for byte with the reference evaluator.",
          "Trusts the reference evaluator (internal/prog, ~600 lines, itself validated against the unchanged tree on >10^5 programs). Multi-entry maps are left to the directed self-consistency cases of C07; zero-valued arrays/structs as conditions are not generated.",
          "DESIGN.md 3/C05"),
- "C07": ("reference-evaluator monitor over generated scoping programs plus directed capture cases decided by self-consistency; caller VarMap inspected after Execute",
+ "C07": ("reference-evaluator monitor over generated scoping programs plus directed capture cases decided by self-consistency; caller VarMap inspected after Execute; secondary: hook snapshots (scope depth/identity, context, content, writer) before and after every wrapped construct must be equal",
          "Exploration: programs mixing :=, =, multi-assignment and discard at every depth of if/range/block/yield/include with names planted at every resolution level and shadowed, loop variables captured and read later, '.' printed around every construct; 72 directed cases capture key/value/'.' of every ranger kind (incl. multi-entry maps) in iteration 1 or 2 and require the same value after the loop.",
          "Trusts the reference evaluator. Assignment to Set globals/built-ins and block bodies reading the yielder's locals are design choices outside the statement and are not generated.",
          "DESIGN.md 3/C07"),
@@ -56,7 +56,7 @@ CHECKS = {
          "Exploration: acyclic sets with extends depth 0-3 and up to 3 libraries imported at any level, 5 shared block names, yields with named arguments in any order, defaults, contexts, content bodies reading caller variables that the block shadows; the rendered output (unique token per file/block/site) must equal the model's, which computes the effective block table as extended chain < imports in order < own.",
          "Trusts the reference evaluator; positional yield arguments, yield content in blocks yielded without content and content reading block parameters are not generated (DESIGN 2.4).",
          "DESIGN.md 3/C08"),
- "C13": ("reference-evaluator monitor over generated try/catch programs with failures planted below state-changing constructs",
+ "C13": ("reference-evaluator monitor over generated try/catch programs with failures planted below state-changing constructs; secondary: hook snapshots of the interpreter state before and after every wrapped try/range/yield/include must be equal",
          "Exploration: try bodies failing at depth <=4 below range, if-let, yield with parameters/content, include and inner try, with and without catch/catch variable; the output before, inside and after every try (context, variables, isset of names declared inside, yielded content) must equal the model's all-or-nothing semantics.",
          "Trusts the reference evaluator; the catch variable's printed form is not compared (only that it is set inside catch and unset afterwards).",
          "DESIGN.md 3/C13"),
